@@ -335,6 +335,7 @@ FutureContext<T, M>::pointer() noexcept {
 
 template <typename T, typename M>
 ABSL_ATTRIBUTE_NOINLINE void FutureContext<T, M>::wait_slow() noexcept {
+  BABYLON_VERIF_POINT("fut:before_waiter_register");
   auto value = _futex.value().fetch_add(1, ::std::memory_order_acquire) + 1;
   BABYLON_VERIF_POINT("fut:waiter_registered");
   while (!(value & READY_MASK)) {
@@ -353,6 +354,7 @@ ABSL_ATTRIBUTE_NOINLINE bool FutureContext<T, M>::wait_for_slow(
   int64_t until_ns = static_cast<int64_t>(spec.tv_sec) * (1000 * 1000 * 1000);
   until_ns += spec.tv_nsec + timeout_ns;
 
+  BABYLON_VERIF_POINT("fut:before_waiter_register");
   auto value = _futex.value().fetch_add(1, ::std::memory_order_acquire) + 1;
   BABYLON_VERIF_POINT("fut:waiter_registered");
   while (!(value & READY_MASK)) {
